@@ -83,8 +83,11 @@ def dispatch (reg : List Svc) (path : Bytes) : Outcome :=
 /-- Services as they are actually registered: possibly wrapped in NAME-propagating adapters. -/
 inductive Wrapped
   | gen (s : Svc)
-  /-- `InterceptedService<S, I>` with an accepting interceptor (rejection is C12's subject) -/
-  | intercepted (inner : Wrapped)
+  /-- `InterceptedService<S, I>` with an accepting interceptor (rejection is C12's subject).
+  `extUri`: an `http::Uri` the interceptor left in the extensions of the request it returned
+  (it may return a fresh `Request::new(())`, clear or replace the extensions, rewrite the
+  metadata — none of that is a URI the code reads) -/
+  | intercepted (extUri : Option Bytes) (inner : Wrapped)
   /-- `Layered<L::Service, S>` from `named_layer` with a pass-through layer -/
   | layered (inner : Wrapped)
 deriving Repr
@@ -92,18 +95,21 @@ deriving Repr
 /-- `const NAME: &str = S::NAME` -/
 def Wrapped.name : Wrapped → Bytes
   | .gen s => s.name
-  | .intercepted w => w.name
+  | .intercepted _ w => w.name
   | .layered w => w.name
 
-/-- `call` rebuilds the request with the same URI and hands it to the inner service. -/
+/-- `InterceptedService::call` keeps `req.uri().clone()` in a local before the interceptor runs
+and rebuilds the request with `into_http(uri, method, version, …)` from that local: the inner
+service sees the original path whatever the interceptor returned.  `Layered` hands the request
+on untouched. -/
 def Wrapped.call : Wrapped → Bytes → Outcome
   | .gen s, p => s.call p
-  | .intercepted w, p => w.call p
+  | .intercepted _ w, p => w.call p
   | .layered w, p => w.call p
 
 def Wrapped.base : Wrapped → Svc
   | .gen s => s
-  | .intercepted w => w.base
+  | .intercepted _ w => w.base
   | .layered w => w.base
 
 def dispatchW (reg : List Wrapped) (path : Bytes) : Outcome :=
@@ -116,5 +122,192 @@ def dispatchW (reg : List Wrapped) (path : Bytes) : Outcome :=
 /-- Names for which the model is claimed: they contain no route-pattern characters. -/
 def validName (n : Bytes) : Bool :=
   !n.isEmpty && !n.contains slash && !n.contains 123 && !n.contains 125
+
+/-! ### Every way of building the router
+
+`Routes` is a newtype around an `axum::Router`; what answers a request is decided by three things
+the router holds: the service routes mounted so far, any plain routes a user put on the
+`axum::Router` himself, and the fallback.  `Routes::default()` is the only place that installs
+tonic's `unimplemented` fallback; `Routes::from(axum::Router)` adopts the router it is given
+*as it is* (with axum's own 404 fallback, or the user's).  Everything else — `Routes::new`,
+`add_service`, `RoutesBuilder`, `prepare`, `into_axum_router` and back, the three
+`transport::Server` entry points and `Router::add_service` / `add_optional_service` — only
+passes the router on or mounts one more service route. -/
+
+/-- Who answers a path that matches no route. -/
+inductive Fallback
+  /-- tonic's `unimplemented` handler (installed by `Routes::default`) -/
+  | unimplemented
+  /-- axum's built-in fallback of `axum::Router::new()`: bare `404 Not Found` -/
+  | axumNotFound
+  /-- a fallback the user installed on the `axum::Router` given to `Routes::from` -/
+  | user
+deriving DecidableEq, Repr
+
+/-- The `axum::Router` inside a `Routes`. -/
+structure Table where
+  /-- services mounted with `add_service`, oldest first -/
+  svcs : List Svc
+  /-- the user's own static routes (full paths) -/
+  user : List Bytes
+  fb : Fallback
+deriving DecidableEq, Repr
+
+/-- `Routes::default()`: `axum::Router::new().fallback(unimplemented)` -/
+def Table.default : Table := ⟨[], [], .unimplemented⟩
+
+/-- `Routes::add_service`: one more `route_service("/{NAME}/{*rest}", svc)`. -/
+def Table.addService (t : Table) (s : Svc) : Table := { t with svcs := t.svcs ++ [s] }
+
+/-- A user-made `axum::Router`: its static routes and whether it has its own fallback. -/
+structure UserRouter where
+  routes : List Bytes
+  ownFallback : Bool
+deriving DecidableEq, Repr
+
+/-- `impl From<axum::Router> for Routes`: `Self { router }` — nothing is added. -/
+def Table.fromAxum (u : UserRouter) : Table :=
+  ⟨[], u.routes, if u.ownFallback then .user else .axumNotFound⟩
+
+/-- The value being built. -/
+inductive St
+  /-- a `Routes` -/
+  | routes (t : Table)
+  /-- a `RoutesBuilder { routes: Option<Routes> }` -/
+  | builder (t : Option Table)
+  /-- a `transport::server::Router { server, routes }` -/
+  | server (t : Table)
+deriving DecidableEq, Repr
+
+/-- The first call. -/
+inductive Start
+  /-- `Routes::new(svc)` = `Self::default().add_service(svc)` -/
+  | routesNew (s : Svc)
+  /-- `Routes::default()` -/
+  | routesDefault
+  /-- `Routes::builder()` = `RoutesBuilder::default()` -/
+  | routesBuilder
+  /-- `Routes::from(axum_router)` -/
+  | fromAxum (u : UserRouter)
+  /-- `RoutesBuilder::from(axum_router)` = `Self { routes: Some(router.into()) }` -/
+  | builderFromAxum (u : UserRouter)
+  /-- `Server::builder().add_service(svc)` = `Router::new(server, Routes::new(svc))` -/
+  | serverAddService (s : Svc)
+  /-- `Server::builder().add_optional_service(svc)`:
+  `svc.map(Routes::new).unwrap_or_default()` -/
+  | serverAddOptional (s : Option Svc)
+deriving DecidableEq, Repr
+
+def Start.run : Start → St
+  | .routesNew s => .routes (Table.default.addService s)
+  | .routesDefault => .routes Table.default
+  | .routesBuilder => .builder none
+  | .fromAxum u => .routes (Table.fromAxum u)
+  | .builderFromAxum u => .builder (some (Table.fromAxum u))
+  | .serverAddService s => .server (Table.default.addService s)
+  | .serverAddOptional (some s) => .server (Table.default.addService s)
+  | .serverAddOptional none => .server Table.default
+
+/-- Every later call.  A call that the value at hand does not offer (e.g. `prepare` on a
+`transport::server::Router`) does not type-check in Rust; here it leaves the value alone. -/
+inductive Op
+  /-- `Routes::add_service` / `RoutesBuilder::add_service` / `Router::add_service` -/
+  | addService (s : Svc)
+  /-- `Router::add_optional_service(svc)`: adds iff `Some` (on a `Routes` / `RoutesBuilder`,
+  which have no such call, the harness does `if let Some(s) = svc { add_service(s) }`) -/
+  | addOptional (s : Option Svc)
+  /-- `Routes::prepare`: `router.with_state(())` -/
+  | prepare
+  /-- `Routes::from(routes.into_axum_router())` -/
+  | axumRoundTrip
+  /-- `routes.axum_router_mut()`: the user mounts a static route of his own -/
+  | userRoute (p : Bytes)
+  /-- `RoutesBuilder::from(routes)` -/
+  | intoBuilder
+  /-- `RoutesBuilder::from(routes.into_axum_router())` -/
+  | intoBuilderViaAxum
+  /-- `RoutesBuilder::routes`: `self.routes.unwrap_or_default()` -/
+  | builderRoutes
+  /-- `Server::builder().add_routes(routes)` -/
+  | serverAddRoutes
+deriving DecidableEq, Repr
+
+def St.step : St → Op → St
+  | .routes t, .addService s => .routes (t.addService s)
+  | .builder t, .addService s => .builder (some ((t.getD Table.default).addService s))
+  | .server t, .addService s => .server (t.addService s)
+  | .routes t, .addOptional (some s) => .routes (t.addService s)
+  | .builder t, .addOptional (some s) => .builder (some ((t.getD Table.default).addService s))
+  | .server t, .addOptional (some s) => .server (t.addService s)
+  | st, .addOptional none => st
+  | .routes t, .prepare => .routes t
+  | .routes t, .axumRoundTrip => .routes t
+  | .routes t, .userRoute p => .routes { t with user := t.user ++ [p] }
+  | .routes t, .intoBuilder => .builder (some t)
+  | .routes t, .intoBuilderViaAxum => .builder (some t)
+  | .builder t, .builderRoutes => .routes (t.getD Table.default)
+  | .routes t, .serverAddRoutes => .server t
+  | .builder t, .serverAddRoutes => .server (t.getD Table.default)
+  | st, _ => st
+
+/-- The router that finally serves: a `RoutesBuilder` is finished with `.routes()`. -/
+def St.table : St → Table
+  | .routes t => t
+  | .builder t => t.getD Table.default
+  | .server t => t
+
+def build (start : Start) (ops : List Op) : St := ops.foldl St.step start.run
+
+/-- What happens to one request on a finished router. -/
+inductive Answer
+  /-- a tonic service route or tonic's fallback answered -/
+  | tonic (o : Outcome)
+  /-- one of the user's own routes answered -/
+  | userRoute (p : Bytes)
+  /-- axum's built-in `404 Not Found` (no grpc-status, no content-type) -/
+  | axumNotFound
+  /-- the user's own fallback answered -/
+  | userFallback
+deriving DecidableEq, Repr
+
+/-- matchit: inserting the same route twice panics (services and the user's own routes alike);
+a static route beats the catch-all of a service route; otherwise as `dispatch`, with the
+table's fallback where no route matches. -/
+def Table.serve (t : Table) (path : Bytes) : Answer :=
+  if hasDup (t.svcs.map Svc.name) || hasDup t.user then .tonic .panic
+  else if t.user.contains path then .userRoute path
+  else
+    match t.svcs.find? (fun s => routeMatches s.name path) with
+    | some s => .tonic (s.call path)
+    | none =>
+      match t.fb with
+      | .unimplemented => .tonic .fallback
+      | .axumNotFound => .axumNotFound
+      | .user => .userFallback
+
+/-- The services a construction mounts, in order. -/
+def Start.services : Start → List Svc
+  | .routesNew s => [s]
+  | .serverAddService s => [s]
+  | .serverAddOptional (some s) => [s]
+  | _ => []
+
+def Op.services : Op → List Svc
+  | .addService s => [s]
+  | .addOptional (some s) => [s]
+  | _ => []
+
+def mounted (start : Start) (ops : List Op) : List Svc :=
+  start.services ++ ops.flatMap Op.services
+
+/-- The construction never touches a user-made `axum::Router`. -/
+def Start.tonicOnly : Start → Bool
+  | .fromAxum _ => false
+  | .builderFromAxum _ => false
+  | _ => true
+
+def Op.tonicOnly : Op → Bool
+  | .userRoute _ => false
+  | _ => true
 
 end Router
